@@ -101,7 +101,7 @@ def select(fx, q, nparams=None, pick=None, enclosing=None):
 
 
 def summarise(f):
-    cn = Canon(f, uniform=True)
+    cn = Canon(f, uniform=True, noinline=True)
     conds, nodes = PS.event_conditions(cn, f.body, events_of=events, unroll=1, drop=_drop_noise, versioned=True, cond_events=True)
     # `continue` is control flow inside one iteration: what it skips shows in the conditions of the other events
     conds = {k: v for k, v in conds.items() if k[0] != "continue"}
